@@ -3,12 +3,14 @@ C01 — in-memory graphs/datasets are mathematical sets of quads.
 
 Model: SophiaModel/Model/{Matcher,Store}.lean; index-selection tables regenerated from
 inmem/src/{dataset,graph}.rs on every run (SophiaModel/Gen/IndexTable.lean).
-Lemmas: SophiaProofs/Lemmas/{StoreDefs,StoreMut,StoreScan,StoreQuery}.lean.
+Lemmas: SophiaProofs/Lemmas/{StoreDefs,StoreMut,StoreScan,StoreQuery,StoreBulk,StoreStd}.lean.
+Std-collection stores, enumerations, from_quad_source: SophiaModel/Model/StoreStd.lean.
 -/
 import SophiaProofs.Lemmas.StoreBulk
+import SophiaProofs.Lemmas.StoreStd
 
 namespace SophiaProofs.C01
-open SophiaModel SophiaModel.Term SophiaModel.Store SophiaProofs.StoreP
+open SophiaModel SophiaModel.Term SophiaModel.Store SophiaModel.StdStore SophiaProofs.StoreP SophiaProofs.StdP
 
 /-- Obligations on the GENERATED tables of the four store types: every index layout is a
 permutation and `insert`/`remove` use the same layouts in the same lookup order; `quads()` iterates
@@ -194,5 +196,91 @@ theorem run_refines_plain_set (d : StoreDesc) (hd : descOK d = true) (max : Nat)
 example : (Store.insert (St.new Gen.genericFastDataset.shape Gen.maxU16)
     ⟨.iri "x:s".toList, .iri "x:p".toList, .lang "chat".toList "EN".toList, none⟩).2 = some true := by
   decide
+
+/-! ### enumerations (`subjects` … `quoted_triples`) -/
+
+/-- **every enumeration is a function of the set of quads held**: two representations of the same
+set (modulo `Term::eq`) enumerate the same terms (modulo `Term::eq`), for each of the nine
+enumerating methods, graphs and datasets -/
+theorem enumerations_respect_set (n : Nat) (k : EnumKind) {a b : List Quad} (h : SameSet a b) (t : Term) :
+    tmem t (enumTerms n k a) = tmem t (enumTerms n k b) :=
+  enumTerms_sameset n k h t
+
+/-- after any history (index-full included) every enumeration of the indexed store answers as the
+same enumeration of the plain-set specification -/
+theorem run_enum_spec (d : StoreDesc) (hd : descOK d = true) (max : Nat) (ops : List Op)
+    (hq : ∀ op ∈ ops, OpOK d op) (k : EnumKind) (t : Term) :
+    tmem t (enumTerms d.n k (Store.quads (ops.foldl (stepM d) (St.new d.shape max)))) =
+      tmem t (enumTerms d.n k (ops.foldl (stepSF max d.n) ⟨[], []⟩).quads) :=
+  enumTerms_sameset d.n k (run_refines_full d hd max ops hq).2.1 t
+
+-- non-vacuity: a quoted triple contributes its atoms to `iris` and itself to `quoted_triples`
+example : enumTerms 4 .iris [⟨.triple (.iri ['a']) (.iri ['p']) (.bnode ['b']), .iri ['p'], .lit ['1'] ['d'], some (.iri ['g'])⟩]
+    = [.iri ['a'], .iri ['p'], .iri ['p'], .iri ['g']] := by decide
+example : (enumTerms 3 .qtriples [⟨.triple (.iri ['a']) (.iri ['p']) (.bnode ['b']), .iri ['p'], .lit ['1'] ['d'], none⟩]).length = 1 := by
+  decide
+
+/-! ### `from_quad_source` / `from_triple_source` -/
+
+/-- a store built from a source holds exactly the set of the source's quads, each once (any of the
+generated store types, any index width) -/
+theorem from_source_is_set (d : StoreDesc) (hd : descOK d = true) (max : Nat) (qs : List Quad)
+    (hq : ∀ q ∈ qs, QOK d q) {s : St} (h : collect d.shape max qs = some s) :
+    Good d s ∧ SameSet (abs s) qs ∧ NodupQ (abs s) :=
+  collect_spec d hd max qs hq h
+
+/-- … and it fails exactly when inserting the quads in turn into a fresh store exhausts the index -/
+theorem from_source_fails_iff_full (sh : Shape) (max : Nat) (qs : List Quad) :
+    collect sh max qs = none ↔ (insertAll (St.new sh max) qs 0).2 = none :=
+  collect_none_iff sh max qs
+
+-- non-vacuity: a duplicate in the source is stored once
+example : (collect Gen.genericFastGraph.shape Gen.maxU16
+    [⟨.iri ['s'], .iri ['p'], .lang ['x'] ['e', 'n'], none⟩, ⟨.iri ['s'], .iri ['p'], .lang ['x'] ['E', 'N'], none⟩]).map
+      (fun s => (Store.quads s).length) = some 1 := by decide
+
+/-! ### vector-backed stores behave as the corresponding list
+
+`Vec::push`, `Vec::swap_remove`, the `while i < self.len()` loop of `Vec<Spog<T>>::remove` /
+`Vec<[T;3]>::remove` and `position` + `swap_remove` of `Vec<Gspo<T>>::remove` are modelled literally
+(`SophiaModel.StdStore`). The returned flags are "not significant" (trait docs) and not part of the
+statements, except where the implementation does compute one (`Vec<Gspo<T>>::remove`). -/
+
+/-- `Vec<Spog<T>>::remove` / `Vec<[T;3]>::remove`: every occurrence of the quad goes, every other
+entry stays with its multiplicity -/
+theorem vec_remove_all_is_filter (d : List Quad) (q : Quad) :
+    (vecRemoveAll d q).1.Perm (d.filter (fun x => !quadEq x q)) :=
+  vecRemoveAll_perm d q
+
+/-- `Vec<Gspo<T>>::remove`: absent ⇒ nothing changes and the flag is `false`; present ⇒ the flag is
+`true` and exactly the first occurrence goes -/
+theorem vec_remove_first_removes_one (d : List Quad) (q : Quad) :
+    (qmem q d = false → vecRemoveFirst d q = (d, false)) ∧
+    (qmem q d = true → (vecRemoveFirst d q).2 = true ∧
+      (vecRemoveFirst d q).1.Perm (d.eraseP (fun x => quadEq x q))) :=
+  vecRemoveFirst_spec d q
+
+/-- after ANY history of insert / remove / insert_all / remove_all / remove_matching /
+retain_matching a `Vec<Spog<T>>` (n = 4) or `Vec<[T;3]>` (n = 3) holds, as a multiset, exactly the
+corresponding list (`listStep`: append; drop every `Term::eq`-occurrence) -/
+theorem vec_history_is_list (n : Nat) (ops : List Op) :
+    (ops.foldl (vecStep true n) []).Perm (ops.foldl (listStep n) []) :=
+  vec_run_perm n ops
+
+-- non-vacuity: the loop really removes adjacent and trailing duplicates (the `swap_remove` cases)
+example : (vecRemoveAll [⟨.iri ['a'], .iri ['p'], .iri ['a'], none⟩, ⟨.iri ['b'], .iri ['p'], .iri ['a'], none⟩,
+    ⟨.iri ['a'], .iri ['p'], .iri ['a'], none⟩, ⟨.iri ['a'], .iri ['p'], .iri ['a'], none⟩]
+    ⟨.iri ['a'], .iri ['p'], .iri ['a'], none⟩).1 = [⟨.iri ['b'], .iri ['p'], .iri ['a'], none⟩] := by decide
+
+/-- after ANY history a `Vec<Gspo<T>>` (whose `remove` drops the first occurrence only) holds, as a
+bag modulo `Term::eq`, exactly the corresponding list (`listStepFirst`: append; drop one occurrence) -/
+theorem vec_gspo_history_is_list (n : Nat) (ops : List Op) :
+    SameBag (ops.foldl (vecStep false n) []) (ops.foldl (listStepFirst n) []) :=
+  vec_first_run_bag n ops
+
+-- non-vacuity: one of two equal entries survives a removal, and the flag says so
+example : (vecRemoveFirst [⟨.iri ['a'], .iri ['p'], .lang ['x'] ['e', 'n'], none⟩, ⟨.iri ['b'], .iri ['p'], .iri ['a'], none⟩,
+    ⟨.iri ['a'], .iri ['p'], .lang ['x'] ['E', 'N'], none⟩] ⟨.iri ['a'], .iri ['p'], .lang ['x'] ['e', 'n'], none⟩) =
+    ([⟨.iri ['a'], .iri ['p'], .lang ['x'] ['E', 'N'], none⟩, ⟨.iri ['b'], .iri ['p'], .iri ['a'], none⟩], true) := by decide
 
 end SophiaProofs.C01
